@@ -347,6 +347,9 @@ def r4(ck, F):
                 if src and src.get("l") in holders and "p" not in s["lhs"]:
                     holders.add(s["lhs"]["l"])
             drops = [i for i, blk in enumerate(b.blocks) if blk["term"]["k"] == "drop" and blk["term"]["place"].get("l") in holders and not blk.get("cleanup")]
+            # (an explicit `drop(span)` is a drop too)
+            drops += [i for i, blk in enumerate(b.blocks) if blk["term"]["k"] == "call" and blk["term"]["callee"].get("path") == "core::mem::drop" and blk["term"]["argv"]
+                      and (blk["term"]["argv"][0].get("move") or {}).get("l") in holders and not blk.get("cleanup")]
             after = b.reachable(reads[0][1]["ret"], avoid=drops)
             ok = bool(drops) and not any(e in after for e in b.exits())
         # ... and the value it was read out *of* never runs its own destructor: `mem::forget(self)` or
